@@ -107,6 +107,11 @@ def generate():
     vfn("update_meta", r"update_allocation_metadata\s*\(")
     vfn("assign_count", r"assign\s*\(\s*size_type count\s*\)")
     vfn("prepare_for_insert", r"prepare_for_insert\s*\(")
+    # does prepare_for_insert return before its shifting loops when nothing is inserted?  (Without such a
+    # guard the second loop runs `_data[i] = std::move(_data[i])` over [index, _constructed_size).)
+    pfi = norm(function_body(vh, V + r"prepare_for_insert\s*\("))
+    guard = re.match(r"\{(reserve\(_size\+count\);)?if\(count==0\)\{return(index|::std::min\(index,_constructed_size\));\}", pfi) is not None
+    items.append("def zeroCountGuard : Bool := %s" % ("true" if guard else "false"))
 
     # ---- ReusableTraits: the reconstruct dispatch
     th = strip_comments(read(TH))
